@@ -177,6 +177,134 @@ func genC09(env *Env) string {
 	return histHead(r, mode, uint64(r.Intn(100))) + " " + strings.Join(parts, " ")
 }
 
+// genC09Retry: the same set object given to SendSet more than once - a retry after a refused
+// call (ill-typed value, unknown template that is sent in between, oversize), a second send of
+// an accepted set - and records whose GetBuffer() the application called before SendSet. A
+// refused set must be refused again (nothing written); what was encoded once stays what it was.
+func genC09Retry(env *Env) string {
+	r := env.Rng
+	var parts []string
+	nS := 0
+	t := genTpl(r, 400+r.Intn(100), 1+r.Intn(4))
+	t.specs = append(t.specs, genSpec(r, []entities.IEDataType{entities.MacAddress, entities.Ipv4Address, entities.Ipv6Address}[r.Intn(3)], -1))
+	if r.Intn(4) == 0 {
+		t.specs = append(t.specs, genSpec(r, entities.OctetArray, 1+r.Intn(8)))
+	}
+	illRec := func() string {
+		done := false
+		return t.dataAdd(r, t.id, func(i int, s IESpec) string {
+			if !done && illable(s) {
+				if v := illValue(r, s); v != "" {
+					done = true
+					return v
+				}
+			}
+			return ""
+		})
+	}
+	good := func() string { return t.dataAdd(r, t.id, nil) }
+	parts = append(parts, t.tplSet(r))
+	nS++
+	rounds := 1 + r.Intn(3)
+	for i := 0; i < rounds; i++ {
+		k := nS
+		gb := ""
+		if r.Intn(3) == 0 {
+			gb = " G"
+			env.Count("retry/getbuffer-first")
+		}
+		switch r.Intn(7) {
+		case 0, 1: // ill-typed value: refused, retried (refused again), once more
+			recs := illRec()
+			switch r.Intn(3) {
+			case 0:
+				recs = good() + " " + recs
+			case 1:
+				recs = recs + " " + good()
+			}
+			parts = append(parts, fmt.Sprintf("S P D %d %s%s ;", t.id, recs, gb), fmt.Sprintf("C %d ;", k))
+			if r.Bool() {
+				parts = append(parts, fmt.Sprintf("C %d G ;", k))
+			}
+			env.Count("retry/ill-typed")
+		case 2: // accepted, sent again as it is, extended
+			parts = append(parts, fmt.Sprintf("S P D %d %s%s ;", t.id, good(), gb), fmt.Sprintf("C %d ;", k))
+			if r.Bool() {
+				parts = append(parts, fmt.Sprintf("C %d %s ;", k, good()))
+			}
+			env.Count("retry/well-typed-again")
+		case 3: // a good set gets an ill-typed record added after it went out once
+			parts = append(parts, fmt.Sprintf("S P D %d %s%s ;", t.id, good(), gb), fmt.Sprintf("C %d %s ;", k, illRec()), fmt.Sprintf("C %d ;", k))
+			env.Count("retry/ill-typed-appended")
+		case 4: // unknown template: refused; the template is sent; the retry goes out
+			u := genTpl(r, 600+nS, 1+r.Intn(3))
+			parts = append(parts, fmt.Sprintf("S P D %d %s%s ;", u.id, u.dataAdd(r, u.id, nil), gb), fmt.Sprintf("C %d ;", k), u.tplSet(r))
+			nS++
+			parts = append(parts, fmt.Sprintf("C %d ;", k))
+			env.Count("retry/unknown-template-then-known")
+		case 5: // the refused set is reset and used for a good record
+			parts = append(parts, fmt.Sprintf("S P D %d %s%s ;", t.id, illRec(), gb), fmt.Sprintf("C %d R P D %d %s ;", k, t.id, good()), fmt.Sprintf("C %d ;", k))
+			env.Count("retry/reset-after-refusal")
+		default: // template set object sent twice
+			parts = append(parts, "C 0 ;", fmt.Sprintf("S P D %d %s%s ;", t.id, good(), gb))
+			env.Count("retry/template-again")
+		}
+		nS++
+	}
+	return histHead(r, "full", uint64(r.Intn(100))) + " " + strings.Join(parts, " ")
+}
+
+// genC09ZeroWidth: templates made of fixed-length-0 octet arrays only (records of length zero)
+// or containing one; data records give those elements the empty value (fine) or a value of
+// 1..3 bytes (cannot be encoded: must be refused - a record of length 0 used to skip the encoder).
+func genC09ZeroWidth(env *Env) string {
+	r := env.Rng
+	id := 400 + r.Intn(100)
+	t := tplG{id: id}
+	n := 1 + r.Intn(3)
+	for i := 0; i < n; i++ {
+		t.specs = append(t.specs, genSpec(r, entities.OctetArray, 0))
+	}
+	onlyZero := r.Intn(3) != 0
+	if !onlyZero {
+		t.specs = append(t.specs, randSpec(r))
+	}
+	parts := []string{t.tplSet(r)}
+	k := 1
+	for i := 1 + r.Intn(3); i > 0; i-- {
+		ill := r.Intn(3) != 0
+		bad := r.Intn(n)
+		rec := t.dataAdd(r, t.id, func(j int, s IESpec) string {
+			if ill && j == bad {
+				return "oct " + BytesArg(r.Bytes(1+r.Intn(3)))
+			}
+			if j < n {
+				return []string{"oct -", "oct nil"}[r.Intn(2)]
+			}
+			return ""
+		})
+		if r.Intn(3) == 0 {
+			rec = t.dataAdd(r, t.id, func(j int, s IESpec) string {
+				if j < n {
+					return "oct -"
+				}
+				return ""
+			}) + " " + rec
+		}
+		parts = append(parts, fmt.Sprintf("S P D %d %s ;", t.id, rec))
+		if r.Intn(3) == 0 {
+			parts = append(parts, fmt.Sprintf("C %d ;", k))
+		}
+		k++
+		if ill {
+			env.Count("zero-width/ill-sized-value")
+		} else {
+			env.Count("zero-width/empty-value")
+		}
+	}
+	return histHead(r, "full", uint64(r.Intn(100))) + " " + strings.Join(parts, " ")
+}
+
 func hasTpl(ts []tplG, id int) bool {
 	for _, t := range ts {
 		if t.id == id {
@@ -223,5 +351,16 @@ func runC09(env *Env) {
 	}
 	for i := 0; i < n; i++ {
 		emit(genC09(env))
+	}
+	// the same set object sent again (retry after a refusal), GetBuffer called before SendSet
+	emit("tcp 1 0 full S P T 300 A 1 300 2 7 6 0 2 i16 0 8 18 0 4 ip nil ; S P D 300 A 1 300 2 7 6 0 2 i16 5 8 18 0 4 ip hex 20010db8000000000000000000000001 ; C 1 ; C 1 G ; C 1 R P D 300 A 1 300 2 7 6 0 2 i16 5 8 18 0 4 ip hex 0a000001 ;")
+	emit("udp 1 0 full S P T 300 A 1 300 2 7 6 0 2 i16 0 8 18 0 4 ip nil ; S P D 300 A 1 300 2 7 6 0 2 i16 5 8 18 0 4 ip nil G ; C 1 ; S P D 300 A 2 300 2 7 6 0 2 i16 6 8 18 0 4 ip hex 0a000002 G ; C 2 ;")
+	emit("tcp 1 0 full S P T 300 A 1 300 2 7 6 0 2 i16 0 8 18 0 4 ip nil ; S P D 300 A 1 300 2 7 6 0 2 i16 5 8 18 0 4 ip hex 0a000001 ; X - C 1 ; C 0 ; C 1 ;")
+	env.Count("shape/retry-fixed")
+	for i := 0; i < n/2; i++ {
+		emit(genC09Retry(env))
+	}
+	for i := 0; i < 8+n/20; i++ {
+		emit(genC09ZeroWidth(env))
 	}
 }
